@@ -11,18 +11,32 @@ CFG = dict(
          "backends (Vec, [T], [T;N], Arc<Vec>, VecDeque at 3 ring offsets, ndarray owned / step 2 / "
          "reversed views, option view); one series per length with NaNs sprinkled in; a recording "
          "callback logs every invocation; compared exactly with the model's call trace and output; "
-         "non-trivial = every case (each is a distinct configuration); tags nt=0 mark trivial ones. THOROUGH TIER ONLY, "
+         "non-trivial = every case (each is a distinct configuration); tags nt=0 mark trivial ones. part=deg (both tiers, "
+         "exhaustive): the two-series entry points (rolling2_apply / rolling2_apply_idx returned and caller-buffer, "
+         "rolling2_apply_to, rolling2_apply_idx_to, rolling2_custom returned and caller-buffer) x len xs 0..=3 x len ys 0..=3 "
+         "(second series empty / shorter / equal / longer) x window 0..=2 x first series on Vec / VecDeque / ndarray x second "
+         "series on Vec / VecDeque / ndarray; a panic is compared by kind AND by the identity of the check that fired (read "
+         "from the panic message) against check2_default / check2_to / check2_custom of the model. THOROUGH TIER ONLY, "
          "binary c02pl of harness-pl/ (tevec built with feature polars): the same recording callback, len 0..=12 x window "
          "1..=len+3 x the 10 entry points x Polars Float64Chunked inputs of 1, 2, 3 chunks (nulls where the series has NaN; "
          "by value and by reference), the second series a Vec or a Polars array with another chunking, slice forms "
          "receiving Polars slices that span chunk boundaries; compared with the default-body model (iterator body "
          "returned, index body into the caller's buffer) over Option<f64> elements",
-    theorem_hint="Props/C02.v: C02_once_in_order_*, C02_removed_arg_*, C02_slice_arg_*",
-    level_text="Proof: 13 theorems (Props/C02.v, axiom-free) about the Gallina model of all eight drivers and both "
-               "bodies, for every series, window >= 1 and every stateful callback: one call per position in order, "
+    theorem_hint="Props/C02.v: C02_once_in_order_*, C02_removed_arg_*, C02_slice_arg_*, C02_every_window_*, C02_two_series_*",
+    level_text="Proof: 33 theorems (Props/C02.v, axiom-free) about the Gallina model of all eight drivers and both "
+               "bodies, for every series and every stateful callback. Window >= 1: one call per position in order, "
                "the removed argument, the slice argument = positions max(0,i-w+1)..=i, output placement, and agreement "
-               "of the two bodies for add-emit-remove callbacks. The model is tied to the code by an exhaustive "
-               "small-scope differential run (recording callback, all entry points x backends x output paths).",
+               "of the two bodies for add-emit-remove callbacks. EVERY window, 0 included (X12): each one-series entry point "
+               "equals `if <window assertion / window-1 underflow> then Panicked .. else Done (run f s0 <call list>)`, and the "
+               "two bodies agree with no hypothesis on the window. Two-series entry points, every window and every pair of "
+               "lengths (second series empty / shorter / equal / longer): closed forms with the panics in the order of the code "
+               "(index body: lengths assertion, then window assertion; returned default path: window assertion on the FIRST "
+               "series only, then one call per zipped pair; rolling2_custom: lengths, then window-1), the start iterator of "
+               "rolling2_apply_idx, the exact corner where a window check on the zipped series would differ (w = 0, xs non-empty, "
+               "ys empty - the model error repaired by X12), agreement of the two bodies when the second series is not shorter, "
+               "and their designed difference when it is. Nothing is partial. The model is tied to the code by an exhaustive "
+               "small-scope differential run (recording callback, all entry points x backends x output paths, and the "
+               "degenerate two-series combinations with the identity of the failing check).",
     level_note="Trusted: Coq kernel; the hand-written model of view.rs/vec.rs/ndarray.rs driver bodies and of std's "
                "repeat_n/chain/zip/enumerate; the harness and comparator. Polars backend: exercised by c02pl (separate crate "
                "harness-pl/) in the thorough tier only.",
